@@ -159,6 +159,46 @@ def check_length_relating_impls(ctx, cfg):
     ctx.ob(rule, "sweep (%s)" % cfg, n >= 1, "comparison impls relating two GenericArray types: %d" % n, cfg=cfg)
     return n
 
+def check_tuple_impls(ctx, cfg):
+    """C12.T: every conversion impl between a tuple type and a GenericArray relates a k-tuple to an array whose length is the literal k, and every
+    field of the tuple has the array's element type. The bodies no longer have to go through `from_array` / `into_array` (whose `Const<U>: IntoArrayLength`
+    bound ties the two today), so the tie is checked on the impl headers themselves - a macro table row with a name missing is a wrong-length
+    conversion that type-checks. Universal over the crate's impls; the compile-time corpus only sees the arities it was generated for."""
+    from ..tys import TyEnv
+    rule = "C12.T"
+    db = ctx.db(cfg)
+    n = 0
+    te = TyEnv()
+    for imp in db.impls:
+        tr = imp.get("trait")
+        if tr not in ("core::convert::From", "core::convert::Into", "core::convert::TryFrom", "core::convert::TryInto"):
+            continue
+        others = [x for x in imp.get("trait_args", [])[1:] if isinstance(x, dict) and x.get("k") != "region"]
+        if not others:
+            continue
+        a_, b_ = imp["self"], others[0]
+        for tup, arr in ((a_, b_), (b_, a_)):
+            t0 = tup
+            while isinstance(t0, dict) and t0.get("k") == "ref":
+                t0 = t0.get("t")
+            r0 = arr
+            while isinstance(r0, dict) and (r0.get("k") == "ref" or (r0.get("k") == "adt" and r0["def"] == "alloc::boxed::Box")):
+                r0 = r0.get("t") if r0.get("k") == "ref" else adt_args(r0)[0]
+            if not (isinstance(t0, dict) and t0.get("k") == "tuple" and t0.get("ts") and is_ga(r0)):
+                continue
+            arity = len(t0["ts"])
+            L = te.length(adt_args(r0)[1])
+            lit = L.const_value() if L.is_const() else None
+            el = tstr(adt_args(r0)[0])
+            same = all(tstr(x) == el for x in t0["ts"])
+            ok = lit == arity and same
+            ctx.ob(rule, db.impl_key(imp), ok, "%s between a %d-tuple and %s: array length literal %s equals the arity: %s; every tuple field has the element type %s: %s" % (
+                tr.split("::")[-1], arity, tstr(r0), lit, lit == arity, el, same), at=imp["at"], cfg=cfg, frozen=False)
+            n += 1
+            break
+    ctx.floor(rule, "tuple conversion impls (%s)" % cfg, n, 24)
+    return n
+
 
 def check_corpus(ctx):
     rule = "C12.W"
@@ -209,4 +249,5 @@ def check(ctx):
         check_sealed(ctx, cfg)
         check_lifetime_sweep(ctx, cfg)
         check_length_relating_impls(ctx, cfg)
+        check_tuple_impls(ctx, cfg)
     check_corpus(ctx)
